@@ -388,6 +388,34 @@ pub fn pattern_shapes(tier: Tier) -> Vec<Shape> {
             }
         }
     }
+    // parameterised enumerants whose parameter is itself an enumeration or a mask: every value of that parameter
+    // (Decorate .. LinkageAttributes "name" Import, FPRoundingMode RTZ, BuiltIn x, FPFastMathMode bits ..), hosted by every
+    // opcode that takes the kind as a plain operand
+    for gi in &g.insts {
+        let vo = gi.value_operands();
+        for (pos, (kind, q)) in vo.iter().enumerate() {
+            if !g.is_enum_kind(kind) || *q == Quant::ZeroOrMore || !g.params.contains_key(kind.as_str()) {
+                continue;
+            }
+            for (_, n) in g.enums[kind].variants.iter() {
+                let ps = g.enum_params(kind, *n);
+                for (pi, pk) in ps.iter().enumerate() {
+                    let vals: Vec<u32> = if g.is_enum_kind(pk) { g.enums[pk].declared().into_iter().collect() } else if g.is_mask_kind(pk) { let m = &g.masks[pk]; m.nonzero().iter().map(|b| b.1).chain([0, m.all()]).collect() } else { continue };
+                    for v in vals {
+                        let mut args = enum_with_params(kind, *n, 500 + 16 * pos as u32);
+                        // args[0] is the enumerant itself, args[1 + pi] its pi-th parameter (parameters are single args here)
+                        if let Some(slot) = args.get_mut(1 + pi) {
+                            *slot = if g.is_enum_kind(pk) { Arg::Enum(crate::model::kind_static(pk), v) } else { Arg::Mask(crate::model::kind_static(pk), v) };
+                        } else {
+                            continue;
+                        }
+                        let n_opt = vo[..=pos].iter().filter(|o| o.1 == Quant::ZeroOrOne).count();
+                        out.push(Shape { id: format!("{}:pattern:{}={}:param{}={}", gi.name, kind, n, pi, v), inst: build(gi, n_opt, 0, Some((pos, 0, args))) });
+                    }
+                }
+            }
+        }
+    }
     // equal ids in several places: every id of the fullest shape (and of the three-repetition shape) is the same number
     for gi in &g.insts {
         let mut v = vec![fullest(gi)];
